@@ -84,8 +84,12 @@ class BoundedStream(io.IOBase):
         if size is None or size == -1 or size > self._bytes_remaining:
             size = self._bytes_remaining
 
-        self._bytes_remaining -= size
-        return target(size)
+        # NOTE: Only deduct what was actually read; a line or a short read
+        #   may be smaller than the requested size, and the remaining bytes
+        #   must stay readable.
+        data = target(size)
+        self._bytes_remaining -= len(data)
+        return data
 
     def readable(self) -> bool:
         """Return ``True`` always."""
@@ -139,7 +143,24 @@ class BoundedStream(io.IOBase):
 
         """
 
-        return self._read(hint, self.stream.readlines)
+        # NOTE: The wrapped stream's own readlines() treats a hint <= 0 as
+        #   "no limit", and may exceed the hint in order to complete a line;
+        #   read line by line instead, so as to never read past the expected
+        #   content length.
+        if hint is None or hint <= 0 or hint > self._bytes_remaining:
+            hint = self._bytes_remaining
+
+        lines: List[bytes] = []
+        total = 0
+        while total < hint:
+            line = self.readline()
+            if not line:
+                break
+
+            lines.append(line)
+            total += len(line)
+
+        return lines
 
     def write(self, data: bytes) -> None:
         """Raise IOError always; writing is not supported."""
